@@ -21,18 +21,17 @@ TRUSTED = ['hand-written Gallina mirror of MPS.compress and the local SVD functi
            'numpy.argsort (unstable): a sorting permutation; the recorded permutation is an input of the model',
            'abs of a complex number (square root): oracle with contract abs(z) >= 0, abs(z)^2 = |z|^2, checked on every replayed case',
            'independent numpy re-implementation of the clauses (dense contraction, dense SVD of the first cut) in harness/props/c13.py (search only)']
-PARTIAL = ('proved for all inputs (Properties/C13.v, 5 theorems closed under the global context), for every ordered field, L >= 1, d, bond profile, charges, well-formed block-sparse MPS '
-           '(boundary bonds 1, all bonds >= 1), 0 <= tol < 1 and oracles meeting qr_call_ok / dsvd_ok / pick_ok / the abs contract on the calls actually issued: '
-           'C13_compress_nrm_partial (both modes: nrm >= 0, nrm^2 = <psi|psi>); C13_compress_left_spec (mode left: the model returns, result well formed and block sparse, every site a left isometry, '
-           '<psi\'|psi\'> = 1, new bond dimensions <= those after the preliminary orthonormalisation <= original, scale >= 0, scale^2 = prod_{i<L}(1 - eps_i) with eps_i the discarded relative weight '
-           'of the i-th local truncation and 0 <= eps_i <= tol, tol = 0 gives scale = 1 and nrm*scale*amp psi\' w = amp psi w, <psi\'|psi> = nrm*scale); C13_compress_left_error (mode left: '
-           '1 - L*tol <= scale^2 <= 1 and ||nrm*scale*psi\' - psi||^2 = nrm^2 (1 - scale^2) <= nrm^2*L*tol); C13_scale_bounds_partial (Bernoulli algebra); C13_compress_calls (the steps quantified over '
-           'are the calls the model issues). Square roots are avoided: bounds are for scale^2 and the squared distance. '
-           'NOT proved, validated numerically on every generated input only: all of the above except nrm for mode right (the sweep induction is orientation free but the right SVD step has no instance yet), '
-           'the Schmidt-value statement for the first truncated bond as a theorem about compress (C12 gives it per local split), the from_vector bound (from_vector is not modelled), '
-           'that the oracles meet their contracts (measured), that the code computes what the model computes (replay, form R).')
+PARTIAL = ('proved for all inputs (Properties/C13.v, 8 theorems closed under the global context), for every ordered field, L >= 1, d, bond profile, charges, well-formed block-sparse MPS '
+           '(boundary bonds 1, all bonds >= 1), 0 <= tol < 1 and oracles meeting qr_call_ok / dsvd_ok / pick_ok / the abs contract on the calls actually issued, BOTH modes: '
+           'C13_compress_left_spec / C13_compress_right_spec (the model returns; result well formed and block sparse, every site an isometry in the sweep direction, <psi\'|psi\'> = 1, '
+           'new bond dimensions <= those after the preliminary orthonormalisation <= original; nrm >= 0, nrm^2 = <psi|psi>; scale >= 0, scale^2 = prod_{i<L}(1 - eps_i) with eps_i the discarded relative weight '
+           'of the i-th local truncation and 0 <= eps_i <= tol; tol = 0 gives scale = 1 and nrm*scale*amp psi\' w = amp psi w; <psi\'|psi> = nrm*scale); C13_compress_left_error / _right_error '
+           '(1 - L*tol <= scale^2 <= 1 and ||nrm*scale*psi\' - psi||^2 = nrm^2 (1 - scale^2) <= nrm^2*L*tol); C13_from_vector_bound (Model/FromVector.v: ||as_vector(from_vector v tol) - v||^2 <= n*tol*||v||^2 '
+           'for oracles meeting dsvd_ok / pick_ok on the calls of the TT-SVD loop); C13_compress_nrm_partial, C13_scale_bounds_partial, C13_compress_calls. Square roots are avoided: bounds are for scale^2 and squared distances. '
+           'NOT proved, validated numerically on every generated input only: the Schmidt-value statement for the first truncated bond as a theorem about compress (C12 gives s = S[retained] per local split), '
+           'that the oracles meet their contracts (measured), that the code computes what the model computes (replay, form R; the from_vector model is tied to the code by the C03 correspondence).')
 ASSUMPTIONS = ['binary64 values are read as exact rationals; float arithmetic after a primitive is compared with tolerance 1e-9*(1+scale)',
-               'MPS.from_vector is not modelled in Coq: its clause is validated numerically only',
+               'MPS.from_vector: proved about Model/FromVector.v (replayed against the code by the C03 plugin), validated numerically here',
                'the is_qsparse assertions inside MPS.compress are not mirrored by the model']
 NREPLAY = {'quick': 90, 'thorough': 500, 'search': 0}
 RULE = ('compress: non-zero MPS, L in 1..5, d in 1..3, bond profiles, charge classes, spectra from product states to flat / staircase '
